@@ -23,9 +23,11 @@ package standard
 //@ requires s != nil
 //@ ensures [resolved] result2 == core.ResultSucceeded ==> result0 != nil && result1 != nil && result1 == resolved(s, name, pubKey) && result0 == walletOf(result1)
 //@ ensures [none] result2 != core.ResultSucceeded ==> result0 == nil && result1 == nil
+//@ ensures [verdict] result2 == core.ResultSucceeded || result2 == core.ResultDenied || result2 == core.ResultFailed
 
 //@ func (*Service).checkAccess
 //@ requires s != nil
+//@ ensures [verdict] result == core.ResultSucceeded || result == core.ResultDenied || result == core.ResultFailed
 //@ modifies checkedset
 //@ ensures [checked] result == core.ResultSucceeded ==> credentials != nil && (credentials.Client + "|" + accountName + "|" + action) in checkedset
 //@ ensures [monotone] forall k string :: old(k in checkedset) ==> k in checkedset
@@ -41,6 +43,7 @@ package standard
 //@ ensures [unlocked] result2 == core.ResultSucceeded ==> (!implements(result1, "e2wtypes.AccountLocker") || wasUnlocked(result1) || unlockOk(s.unlocker, result1))
 //@ ensures [ok] result2 == core.ResultSucceeded ==> result0 != nil && result1 != nil && result1 == resolved(s, name, pubKey) && result0 == walletOf(result1) && credentials != nil && ckey(credentials.Client, nameOf(result0), nameOf(result1), action) in checkedset
 //@ ensures [none] result2 != core.ResultSucceeded ==> result0 == nil && result1 == nil
+//@ ensures [verdict] result2 == core.ResultSucceeded || result2 == core.ResultDenied || result2 == core.ResultFailed
 //@ ensures [monotone] forall k string :: old(k in checkedset) ==> k in checkedset
 
 //@ func (*Service).SignBeaconAttestation
@@ -88,3 +91,90 @@ package standard
 //@ ensures [checked] result0 == core.ResultSucceeded ==> credentials != nil && ckey(credentials.Client, nameOf(walletOf(resolved(s, accountName, pubKey))), nameOf(resolved(s, accountName, pubKey)), ruler.ActionSign) in checkedset
 //@ hint-after RunRules@1 [tok] result[0] == rules.APPROVED ==> pkOfAcc(account) in tokroot && tokroot[pkOfAcc(account)] == genRootOf(data)
 //@ hint-after generateSigningRoot@1 [root] result1 == nil ==> bytes(result0) == genRootOf(data)
+
+// ---- batch endpoints: the disjoint-parallel rule over util.Scatter (see /verif/DESIGN.md, "parallel-for") ----
+
+//@ spec nameAt(names []string, i int) string = if i < len(names) then names[i] else ""
+//@ spec keyAt(keys [][]byte, i int) []byte = if i < len(keys) then keys[i] else nil
+//@ spec prechecked(s *Service, client string, rd *ruler.RulesData, acc any, name string, pk []byte, action string) bool = rd != nil && acc != nil && acc == resolved(s, name, pk) && rd.WalletName == nameOf(walletOf(acc)) && rd.AccountName == nameOf(acc) && bytes(rd.PubKey) == pkOfAcc(acc) && ckey(client, rd.WalletName, rd.AccountName, action) in checkedset
+//@ spec attDataOK(d *rules.SignBeaconAttestationData) bool = d != nil && d.BeaconBlockRoot != nil && d.Domain != nil && d.Source != nil && d.Source.Root != nil && d.Target != nil && d.Target.Root != nil
+
+//@ func (*Service).checkAttestationsData
+//@ requires len(results) == len(data)
+//@ modifies results[:]
+//@ ensures [ok] result == nil ==> (forall j int :: 0 <= j && j < len(data) ==> attDataOK(data[j])) && (forall j int :: 0 <= j && j < len(results) ==> results[j] == old(results[j]))
+//@ ensures [denied] result != nil ==> (forall j int :: 0 <= j && j < len(results) ==> results[j] == old(results[j]) || results[j] == core.ResultDenied)
+//@ loop #1
+//@ invariant [range] 0 <= _n && _n <= len(data)
+//@ invariant [ok] forall j int :: 0 <= j && j < _n ==> attDataOK(data[j])
+//@ invariant [same] forall j int :: 0 <= j && j < len(results) ==> results[j] == old(results[j])
+
+// worker 1: resolve, permission-check and unlock the account of every position of the extent
+//@ func (*Service).SignBeaconAttestations$1
+//@ worker i offset entries
+//@ requires s != nil && credentials != nil
+//@ requires [extent] 0 <= offset && entries >= 1 && offset + entries <= len(rulesData)
+//@ requires [lens] len(accounts) == len(rulesData) && len(rulesData) <= len(results) && len(rulesData) <= len(data)
+//@ requires [blank] forall j int :: offset <= j && j < offset + entries ==> rulesData[j] == nil
+//@ modifies checkedset, results[offset:offset+entries], rulesData[offset:offset+entries], accounts[offset:offset+entries]
+//@ ensures-each [ok] rulesData[i] != nil ==> results[i] == old(results[i]) && prechecked(s, credentials.Client, rulesData[i], accounts[i], nameAt(accountNames, i), keyAt(pubKeys, i), ruler.ActionSignBeaconAttestation) && hastype(rulesData[i].Data, "*rules.SignBeaconAttestationData") && unbox(rulesData[i].Data, "*rules.SignBeaconAttestationData") == data[i]
+//@ ensures-each [failed] rulesData[i] == nil ==> results[i] == core.ResultDenied || results[i] == core.ResultFailed
+//@ loop #1
+//@ invariant [range] offset <= i && i <= offset + entries
+//@ invariant [ok-res] forall j int :: offset <= j && j < i && rulesData[j] != nil ==> results[j] == old(results[j])
+//@ invariant [ok-acc] forall j int :: offset <= j && j < i && rulesData[j] != nil ==> accounts[j] != nil && accounts[j] == resolved(s, nameAt(accountNames, j), keyAt(pubKeys, j))
+//@ invariant [ok-names] forall j int :: offset <= j && j < i && rulesData[j] != nil ==> rulesData[j].WalletName == nameOf(walletOf(accounts[j])) && rulesData[j].AccountName == nameOf(accounts[j])
+//@ invariant [ok-pk] forall j int :: offset <= j && j < i && rulesData[j] != nil ==> bytes(rulesData[j].PubKey) == pkOfAcc(accounts[j])
+//@ invariant [ok-chk] forall j int :: offset <= j && j < i && rulesData[j] != nil ==> ckey(credentials.Client, rulesData[j].WalletName, rulesData[j].AccountName, ruler.ActionSignBeaconAttestation) in checkedset
+//@ invariant [ok-data] forall j int :: offset <= j && j < i && rulesData[j] != nil ==> hastype(rulesData[j].Data, "*rules.SignBeaconAttestationData") && unbox(rulesData[j].Data, "*rules.SignBeaconAttestationData") == data[j]
+//@ invariant [failed] forall j int :: offset <= j && j < i && rulesData[j] == nil ==> results[j] == core.ResultDenied || results[j] == core.ResultFailed
+//@ invariant [rest] forall j int :: i <= j && j < offset + entries ==> rulesData[j] == nil
+//@ invariant [frame] forall j int :: !(offset <= j && j < i) ==> results[j] == old(results[j]) && rulesData[j] == old(rulesData[j]) && accounts[j] == old(accounts[j])
+//@ invariant [mono] forall k string :: old(k in checkedset) ==> k in checkedset
+
+// worker 2: sign every approved position of the extent
+//@ spec attPending(acc any, d *rules.SignBeaconAttestationData) bool = acc != nil && pkOfAcc(acc) in tokroot && tokroot[pkOfAcc(acc)] == attRootOf(d)
+//@ func (*Service).SignBeaconAttestations$2
+//@ worker i offset entries
+//@ requires s != nil
+//@ requires [extent] 0 <= offset && entries >= 1 && offset + entries <= len(rulesResults)
+//@ requires [lens] len(rulesResults) <= len(results) && len(signatures) == len(results) && len(data) == len(results)
+//@ requires [verdicts] forall j int :: offset <= j && j < offset + entries ==> rulesResults[j] == rules.UNKNOWN || rulesResults[j] == rules.APPROVED || rulesResults[j] == rules.DENIED || rulesResults[j] == rules.FAILED
+//@ requires [dataok] forall j int :: 0 <= j && j < len(data) ==> attDataOK(data[j])
+//@ requires [approved] forall j int :: offset <= j && j < offset + entries && rulesResults[j] == rules.APPROVED ==> j < len(accounts) && attPending(accounts[j], data[j])
+//@ requires [distinct] forall j int, k int :: offset <= j && j < k && k < offset + entries && rulesResults[j] == rules.APPROVED && rulesResults[k] == rules.APPROVED ==> pkOfAcc(accounts[j]) != pkOfAcc(accounts[k])
+//@ requires [nosig] forall j int :: offset <= j && j < offset + entries ==> signatures[j] == nil
+//@ modifies results[offset:offset+entries], signatures[offset:offset+entries], each(i, offset, offset+entries, rulesResults[i] == rules.APPROVED, tokroot[pkOfAcc(accounts[i])])
+//@ ensures-each [failclosed] (results[i] == core.ResultSucceeded) <==> (signatures[i] != nil)
+//@ ensures-each [exact] results[i] == core.ResultSucceeded ==> rulesResults[i] == rules.APPROVED && validSig(pkOfAcc(accounts[i]), attRootOf(data[i]), bytes(signatures[i]))
+//@ loop #1
+//@ invariant [range] offset <= i && i <= offset + entries
+//@ invariant [failclosed] forall j int :: offset <= j && j < i ==> ((results[j] == core.ResultSucceeded) <==> (signatures[j] != nil))
+//@ invariant [exact] forall j int :: offset <= j && j < i && results[j] == core.ResultSucceeded ==> rulesResults[j] == rules.APPROVED && validSig(pkOfAcc(accounts[j]), attRootOf(data[j]), bytes(signatures[j]))
+//@ invariant [pending] forall j int :: i <= j && j < offset + entries && rulesResults[j] == rules.APPROVED ==> attPending(accounts[j], data[j])
+//@ invariant [nosig] forall j int :: i <= j && j < offset + entries ==> signatures[j] == nil
+//@ invariant [sigalloc] forall j int :: offset <= j && j < i ==> allocated(signatures[j])
+//@ invariant [frame] forall j int :: !(offset <= j && j < i) ==> results[j] == old(results[j]) && signatures[j] == old(signatures[j])
+//@ invariant [tokframe] forall k Bytes :: (forall j int :: !(offset <= j && j < i && rulesResults[j] == rules.APPROVED && k == pkOfAcc(accounts[j]))) ==> ((k in tokroot) <==> old(k in tokroot)) && tokroot[k] == old(tokroot[k])
+//@ hint-after before:HashTreeRoot@1 [bbr] bytes(attestation.BeaconBlockRoot) == pad32(data[i].BeaconBlockRoot)
+//@ hint-after before:HashTreeRoot@1 [src] bytes(attestation.Source.Root) == pad32(data[i].Source.Root)
+//@ hint-after before:HashTreeRoot@1 [tgt] bytes(attestation.Target.Root) == pad32(data[i].Target.Root)
+//@ hint-after generateSigningRoot@1 [root] result1 == nil ==> bytes(result0) == attRootOf(data[i])
+//@ hint-after before:signRoot@1 [sametok] attPending(accounts[i], data[i])
+
+//@ func (*Service).SignBeaconAttestations
+//@ requires s != nil
+//@ requires [lens] len(accountNames) <= len(data) && len(pubKeys) <= len(data)
+//@ modifies tokroot, db, checkedset
+//@ ensures [len] len(result0) >= 1 && (len(result1) == 0 || len(result1) == len(result0)) && (len(data) > 0 ==> len(result0) == len(data))
+//@ ensures [failclosed] forall i int :: 0 <= i && i < len(result0) ==> ((result0[i] == core.ResultSucceeded) <==> (i < len(result1) && result1[i] != nil))
+//@ ensures [exact] forall i int :: 0 <= i && i < len(result0) && result0[i] == core.ResultSucceeded ==> i < len(data) && validSig(pkOfAcc(resolved(s, nameAt(accountNames, i), keyAt(pubKeys, i))), attRootOf(data[i]), bytes(result1[i]))
+//@ loop #1
+//@ invariant [range] 0 <= _n && _n <= len(results) && len(results) == len(data) && fresh(results)
+//@ invariant [unknown] forall j int :: 0 <= j && j < _n ==> results[j] == core.ResultUnknown
+//@ loop #2
+//@ invariant [range] 0 <= _n && _n <= len(results) && len(results) == len(data) && fresh(results)
+//@ invariant [denied] forall j int :: 0 <= j && j < _n ==> results[j] == core.ResultDenied
+//@ loop #3
+//@ invariant [range] 0 <= _n && _n <= len(results)
+//@ invariant [live] forall j int :: 0 <= j && j < _n ==> results[j] == core.ResultUnknown || results[j] == core.ResultSucceeded
